@@ -22,7 +22,7 @@ pub fn drive(kind: &str, seed: u64, n: usize, extra: &str, sink: &mut Sink) -> u
         "ops" => drive_ops(seed, n, sink),
         "deriv" => drive_deriv(seed, n, sink),
         "integ" => drive_integ(seed, n, sink),
-        "pwops" => drive_pwops(seed, n, sink),
+        "pwops" => drive_pwops(seed, n, if extra == "deriv" { "deriv" } else { "scalar" }, sink),
         "logint" => drive_logint(seed, n, sink),
         "quartic" => drive_quartic(seed, n, extra, sink),
         "pwint" => drive_pwint(seed, n, extra, sink),
@@ -30,6 +30,7 @@ pub fn drive(kind: &str, seed: u64, n: usize, extra: &str, sink: &mut Sink) -> u
         "linear" => drive_linear(seed, n, sink),
         "approx" => drive_approx(seed, n, sink),
         "serde" => drive_serde(seed, n, sink),
+        "session" => crate::session::drive_session(seed, n, sink),
         "calib" => {
             drive_calib(seed, n, sink);
             0
